@@ -34,9 +34,40 @@ def hexi(v):
     return ("-%x" % -v) if v < 0 else ("%x" % v)
 
 
+class _Nil:
+    """an explicit nil argument (None = argument absent)"""
+    def __repr__(self):
+        return "NIL"
+
+
+NIL = _Nil()
+
+
+class F:
+    """a float argument"""
+    def __init__(self, x):
+        self.x = float(x)
+
+    def __repr__(self):
+        return "F(%r)" % self.x
+
+
+class _Tbl:
+    def __repr__(self):
+        return "TBL"
+
+
+TBL = _Tbl()     # some table
+
+
 def arg(v):
-    if v is None:
+    if v is None or v is NIL:
         return "n"
+    if v is TBL:
+        return "t"
+    if isinstance(v, F):
+        import struct
+        return "f%016x" % struct.unpack(">Q", struct.pack(">d", v.x))[0]
     if isinstance(v, bool):
         return "b1" if v else "b0"
     if isinstance(v, int):
@@ -47,9 +78,154 @@ def arg(v):
 
 
 def case_line(cid, fn, args):
+    args = list(args)
     while args and args[-1] is None:
         args = args[:-1]
     return " ".join([cid, fn] + [arg(a) for a in args])
+
+
+def scase(c):
+    """string case -> (fn, normalised args, raw args or None, must_raise)"""
+    if len(c) == 2:
+        return c[0], c[1], None, False
+    return c
+
+
+# ----------------------------------------------------------------------------- argument conversion (S; manual §3.4.3, §6.4)
+# The Coq models take integers and byte strings.  What the manual says about the *types* of arguments is stated here, in
+# Python, as a thin layer in front of them (trusted; kept to the finite pool of spellings the generator uses):
+#   * an integer parameter accepts an integer, a float with an integral value, and a string that the Lua lexer reads as
+#     such a number (surrounding whitespace and a sign allowed); anything else is an error;
+#   * a string parameter accepts a string and a number (converted as tostring does); anything else is an error;
+#   * an OPTIONAL parameter given as nil is absent; a required one given as nil is an error;
+#   * surplus arguments are ignored — except by table.insert, which cannot tell which value is meant.
+WS = b" \t\n\r\f\v"
+
+
+def lua_str2number(b):
+    """bytes -> int | float | None, for the spellings the generator produces"""
+    import re
+    t = b.strip(WS)
+    try:
+        t = t.decode("ascii")
+    except UnicodeDecodeError:
+        return None
+    m = re.fullmatch(r"([+-]?)(0[xX][0-9a-fA-F]+|[0-9]+)", t)
+    if m:
+        v = int(m.group(2), 0 if m.group(2)[:2].lower() == "0x" else 10)
+        if m.group(2)[:2].lower() == "0x":
+            v &= (1 << 64) - 1
+            if v >= 1 << 63:
+                v -= 1 << 64
+        elif v > MAXINT:
+            return float(m.group(1) + m.group(2))
+        return -v if m.group(1) == "-" else v
+    if re.fullmatch(r"[+-]?([0-9]+\.?[0-9]*|\.[0-9]+)([eE][+-]?[0-9]+)?", t):
+        return float(t)
+    return None
+
+
+def to_int_spec(v):
+    """the integer an integer parameter receives, or None when the call must raise"""
+    if isinstance(v, bool) or v is None or v is NIL or v is TBL:
+        return None
+    if isinstance(v, int):
+        return v
+    if isinstance(v, (bytes, bytearray)):
+        v = lua_str2number(bytes(v))
+        if v is None:
+            return None
+        if isinstance(v, int):
+            return v
+        v = F(v)
+    if isinstance(v, F):
+        x = v.x
+        if x != x or x in (float("inf"), float("-inf")) or x != int(x) or not (-2.0 ** 63 <= x < 2.0 ** 63):
+            return None
+        return int(x)
+    return None
+
+
+def lua_float_tostring(x):
+    t = "%.14g" % x
+    if all(ch in "-0123456789" for ch in t):
+        t += ".0"
+    return t.encode()
+
+
+def to_str_spec(v):
+    """the byte string a string parameter receives, or None when the call must raise"""
+    if isinstance(v, bool) or v is None or v is NIL or v is TBL:
+        return None
+    if isinstance(v, (bytes, bytearray)):
+        return bytes(v)
+    if isinstance(v, int):
+        return b"%d" % v
+    if isinstance(v, F):
+        return lua_float_tostring(v.x)
+    return None
+
+
+# parameter kinds after the function/table itself: S string, I integer, OS/OI optional, * = any number of integers
+SIGS = {"sub": ["S", "I", "OI"], "byte": ["S", "OI", "OI"], "char": ["I*"], "len": ["S"], "reverse": ["S"], "upper": ["S"],
+        "lower": ["S"], "rep": ["S", "I", "OS"], "find": ["S", "S", "OI"],
+        "insert": None, "remove": ["OI"], "move": ["I", "I", "I"], "unpack": ["OI", "OI"], "concat": ["OS", "OI", "OI"]}
+
+
+def coerce_args(fn, raw):
+    """raw typed arguments -> (normalised arguments for the Coq models | None when the manual demands an error)"""
+    sig = SIGS[fn]
+    raw = list(raw)
+    if fn == "insert":          # (pos, v) | (v); more is an error; the value itself is arbitrary
+        if len(raw) > 2:
+            return None
+        if len(raw) == 2:
+            p = to_int_spec(raw[0])
+            return None if p is None else [p, raw[1]]
+        return raw
+    if sig == ["I*"]:
+        out = [to_int_spec(a) for a in raw]
+        return None if any(a is None for a in out) else out
+    out = []
+    for k, kind in enumerate(sig):
+        a = raw[k] if k < len(raw) else None
+        if kind[0] == "O":
+            if a is None or a is NIL:
+                out.append(None)
+                continue
+            kind = kind[1:]
+        elif a is None:
+            return None              # required argument missing
+        v = to_int_spec(a) if kind == "I" else to_str_spec(a)
+        if v is None:
+            return None
+        out.append(v)
+    return out                       # surplus arguments ignored
+
+
+def int_spellings(k, rng):
+    """other ways to pass the integer k, all of which the manual converts to k"""
+    out = []
+    if abs(k) < 1 << 53:
+        out.append(F(float(k)))
+        out.append(b"%d" % k)
+        out.append(b" %d\t" % k)
+        out.append(b"%d.0" % k)
+        out.append(b"%de0" % k)
+        if k >= 0:
+            out.append(b"0x%x" % k)
+            out.append(b"+%d" % k)
+    else:
+        out.append(b"%d" % k)
+    if k == MININT:
+        out.append(F(-2.0 ** 63))
+    return out
+
+
+BAD_INTS = [F(1.5), F(-0.5), F(float("inf")), F(float("nan")), F(2.0 ** 63), b"abc", b"", b"1x", b"1.5", b"0x", True, TBL]
+BAD_STRS = [True, TBL]
+NUM_STRS = [(b"12345", 12345), (b"-7", -7), (b"0", 0), (b"1.5", F(1.5)), (b"2.0", F(2.0)), (b"-0.25", F(-0.25)), (b"1e+15", F(1e15)),
+            (b"100000", 100000)]
 
 
 def canon_val(tok):
@@ -72,7 +248,9 @@ def classify_err(msghex):
                      ("interval too large", "err:toolarge"), ("wrap around", "err:wrap"),
                      ("too many values to unpack", "err:toomany"), ("invalid value", "err:invalid"),
                      ("too big to sort", "err:toobig"), ("injected", "err:injected"), ("cmp", "err:cmp"),
-                     ("attempt to compare", "err:compare"), ("invalid order function", "err:order")):
+                     ("attempt to compare", "err:compare"), ("invalid order function", "err:order"),
+                     ("must be a string", "err:muststring"), ("must be an integer", "err:mustint"), ("must be a table", "err:musttable"),
+                     ("wrong number of arguments", "err:nargs"), ("needed", "err:nargs")):
         if pat in m:
             return cls
     return "err:other:" + m[:60].replace(" ", "_")
@@ -207,6 +385,97 @@ def gen_string_cases(tier, rng, ck):
     return cases
 
 
+def typed_string_cases(rng, ck):
+    """The argument-TYPE dimension: every parameter of every string function is also passed as nil (optionals),
+    a number where a string is expected, a numeric string / integral float where an integer is expected, values that
+    must be refused (non-integral float, non-numeric string, boolean, table, nil for a required parameter), and
+    with surplus arguments."""
+    base = []
+    strs = [b"abcde", b"12345", b"1.5"]
+    for sv in strs:
+        for i in (-2, 0, 2, MININT, MAXINT):
+            for j in (None, -1, 3, 7):
+                base.append(("sub", (sv, i, j)))
+        for i in (None, -2, 2):
+            for j in (None, -1, 4):
+                if not (i is None and j is not None):
+                    base.append(("byte", (sv, i, j)))
+                else:
+                    base.append(("byte", (sv, 1, j)))
+        for fn in ("len", "reverse", "upper", "lower"):
+            base.append((fn, (sv,)))
+        for n in (0, 1, 3):
+            for sep in (None, b"", b",", b"2.0"):
+                base.append(("rep", (sv[:3], n, sep)))
+        for pt in (b"", b"3", b".5", b"cd", b"%d"):
+            for init in (None, 1, 3, -2, 9):
+                base.append(("find", (sv, pt, init)))
+    for b, _ in NUM_STRS:
+        for fn in ("len", "reverse", "upper"):
+            base.append((fn, (b,)))
+        base.append(("sub", (b, 2, -2)))
+        base.append(("byte", (b, 1, 2)))
+        base.append(("rep", (b, 2, b"-7")))
+        base.append(("find", (b"x-7;12345|0|1.5|2.0;-0.25 1e+15 100000", b, 1)))
+    for t in ((), (65,), (0, 255), (97, 98, 99)):
+        base.append(("char", t))
+    numof = dict(NUM_STRS)
+    out = []
+
+    def emit(fn, raw):
+        raw = list(raw)
+        while raw and raw[-1] is None:
+            raw.pop()
+        norm = coerce_args(fn, raw)
+        ck.count("argtype:" + fn + (":must-raise" if norm is None else ":converted"))
+        if norm is None:
+            out.append((fn, None, tuple(raw), True))
+        else:
+            out.append((fn, tuple(norm), tuple(raw), False))
+    for fn, a in base:
+        sig = SIGS[fn]
+        a = list(a)
+        if sig == ["I*"]:
+            for k, v in enumerate(a):
+                for sp in int_spellings(v, rng) + BAD_INTS[:4] + [b"abc", NIL, True]:
+                    emit(fn, a[:k] + [sp] + a[k + 1:])
+            emit(fn, a + [b"65"])
+            emit(fn, a + [F(66.0)])
+            continue
+        for k, kind in enumerate(sig):
+            v = a[k] if k < len(a) else None
+            later = any(x is not None for x in a[k + 1:])
+            if kind in ("I", "OI"):
+                if v is not None:
+                    for sp in int_spellings(v, rng):
+                        emit(fn, a[:k] + [sp] + a[k + 1:])
+                    for bad in BAD_INTS:
+                        emit(fn, a[:k] + [bad] + a[k + 1:])
+                if kind == "OI" and (v is None or not later):
+                    emit(fn, a[:k] + [NIL] + a[k + 1:])            # nil = absent
+                if kind == "OI" and v is None and k + 1 < len(sig):
+                    emit(fn, a[:k] + [NIL, 2] + a[k + 2:])        # nil in the middle
+                if kind == "I":
+                    emit(fn, a[:k] + [NIL] + a[k + 1:])            # required: must raise
+            else:
+                if v is not None and v in numof:
+                    emit(fn, a[:k] + [numof[v]] + a[k + 1:])       # a number where a string is expected
+                if v is not None:
+                    for bad in BAD_STRS:
+                        emit(fn, a[:k] + [bad] + a[k + 1:])
+                if kind == "OS":
+                    emit(fn, a[:k] + [NIL] + a[k + 1:])
+                    emit(fn, a[:k] + [7] + a[k + 1:])
+                else:
+                    emit(fn, a[:k] + [NIL] + a[k + 1:])
+        if fn != "find":
+            full = [x if x is not None else NIL for x in (a + [None] * len(sig))[:len(sig)]]
+            emit(fn, full + [b"surplus"])
+            emit(fn, full + [NIL, 1, TBL])
+        emit(fn, [])                                               # no argument at all
+    return out
+
+
 # ----------------------------------------------------------------------------- known findings (narrow predicates)
 def norm_start(s, init):
     """0-based start offset of the search as string.find computes it (None if beyond the end)."""
@@ -218,11 +487,18 @@ def norm_start(s, init):
     return si if si <= l else None
 
 
-def known_string_finding(fn, args, go, im, s):
+def known_string_finding(fn, args, go, im, s, raw=None):
     """Returns the id of the recorded defect that explains Go != S on this case, or None.
     Every predicate requires that Go behaves exactly like the IM (which models the defect) and
     that the input lies in the recorded defect class."""
-    if go != im:
+    if raw is not None and s.startswith("ok:"):
+        sig = SIGS[fn]
+        if go == "err:muststring" and any(k < len(raw) and isinstance(raw[k], (int, F)) and not isinstance(raw[k], bool)
+                                          for k, kind in enumerate(sig) if kind in ("S", "OS")):
+            return "C19-number-for-string-parameter-rejected"
+        if fn == "byte" and go == "err:mustint" and any(x is NIL for x in raw[1:3]):
+            return "C19-byte-nil-optional-rejected"
+    if go != im or args is None:
         return None
     if fn == "rep":
         if args[1] < 0 and go == "err:range2" and s == "ok:s-":
@@ -254,7 +530,7 @@ def tab_go_line(cid, c):
     if c.get("cmp"):
         toks.append("cmp=" + c["cmp"])
     toks.append("--")
-    toks += [a if isinstance(a, str) else arg(a) for a in c["args"]]
+    toks += [a if isinstance(a, str) else arg(a) for a in (c.get("raw") or c["args"])]
     return " ".join(toks)
 
 
@@ -535,12 +811,15 @@ def gen_table_cases(tier, rng, ck):
 def gen_sort_cases(tier, rng):
     thorough = tier == "thorough"
     cases = []
-    cmps = ["none", "lt", "gt", "le", "true", "false", "nil", "mod3", "rand1", "rand7", "rand12345", "err1", "err2", "err5", "err17", "yield"]
+    # lt0 … ltnan answer with true VALUES that are not the boolean true (0, "", a table, the operand, a position, several
+    # values, a function, NaN) and with false / nil / nothing at all: the manual's "returns true" is truthiness
+    truthy = ["lt0", "ltstr", "lttab", "ltand", "ltfind", "ltmulti", "ltfun", "ltnan"]
+    cmps = ["none", "lt", "gt", "le", "true", "false", "nil", "mod3", "rand1", "rand7", "rand12345", "err1", "err2", "err5", "err17", "yield"] + truthy
     vals = [3, 1, 2]
     for n in range(0, 6 if not thorough else 7):
         for perm in itertools.permutations(range(1, n + 1)):
             t = {i + 1: perm[i] for i in range(n)}
-            for cmpk in (cmps if n <= 4 or thorough else ["none", "gt", "true", "rand7", "err2"]):
+            for cmpk in (cmps if n <= 4 or thorough else ["none", "gt", "true", "rand7", "err2"] + truthy):
                 cases.append({"op": "sort", "mode": "plain" if (n + len(cmpk)) % 2 else "proxy", "len": None, "t1": t, "cmp": cmpk, "args": []})
     # duplicates, strings, mixed (comparison errors), holes, lying __len
     specials = [{1: 2, 2: 2, 3: 1, 4: 2, 5: 1}, {1: b"b", 2: b"a", 3: b"", 4: b"ab"}, {1: 3, 2: b"x", 3: 1},
@@ -559,6 +838,8 @@ def gen_sort_cases(tier, rng):
 
 
 CONSISTENT = {"none": lambda a, b: a < b, "lt": lambda a, b: a < b, "gt": lambda a, b: a > b, "mod3": lambda a, b: a % 3 < b % 3}
+for _k in ("lt0", "ltstr", "lttab", "ltand", "ltfind", "ltmulti", "ltfun", "ltnan"):
+    CONSISTENT[_k] = CONSISTENT["lt"]
 
 
 def sort_predicates(c, g):
@@ -600,14 +881,84 @@ def sort_predicates(c, g):
             fails.append("table changed although #t = %r" % (L,))
         if isinstance(L, int) and L >= (1 << 40) and ok:
             fails.append("sort of 2^40 or more elements returned normally")
-    if not ok and res is not None and c["cmp"] in ("none", "lt", "gt", "true", "false", "nil", "mod3") and \
+    if not ok and res is not None and (c["cmp"] in CONSISTENT or c["cmp"] in ("true", "false", "nil")) and \
             isinstance(L, int) and L < (1 << 40) and all(isinstance(before.get(k), int) for k in range(1, max(L, 0) + 1)) and not c.get("err"):
         fails.append("sort raised an error on integers with a total comparator: %r" % (res[1:2],))
     return fails
 
 
 def tab_known(c, g, go, im, s):
-    return None      # no open table finding (insert/remove with #t = maxinteger was repaired in round 2)
+    raw = c.get("raw")
+    if raw and c["op"] == "concat" and go[0] == "err:muststring" and len(raw) > 1 and isinstance(raw[1], (int, F)) \
+            and not isinstance(raw[1], bool):
+        return "C19-number-for-string-parameter-rejected"
+    return None
+
+
+def typed_table_cases(rng, ck):
+    """argument-TYPE dimension for the table functions (see typed_string_cases)"""
+    out = []
+    t = {1: 11, 2: 12, 3: 13}
+
+    def emit(op, mode, raw, t2=None, a2=None):
+        """raw: the arguments after the table, as spelled; a2: optional 5th argument of move"""
+        norm = coerce_args(op, raw)
+        c = {"op": op, "mode": mode, "len": None, "t1": dict(t), "raw": ["@1"] + list(raw) + ([a2] if a2 is not None else [])}
+        if t2 is not None:
+            c["t2"] = dict(t2)
+        ck.count("argtype:" + op + (":must-raise" if norm is None else ":converted"))
+        if norm is None:
+            c["argerr"] = True
+            c["args"] = ["@1"]
+        else:
+            while norm and norm[-1] is None:
+                norm.pop()
+            c["args"] = ["@1"] + norm + ([("@2" if a2 == "@2" else "@1")] if a2 in ("@1", "@2") else [])
+        out.append(c)
+    for mode in ("plain", "proxy"):
+        for pos in (1, 2, 4):
+            for sp in int_spellings(pos, rng):
+                emit("insert", mode, [sp, 99])
+                emit("remove", mode, [sp])
+            for bad in BAD_INTS + [NIL]:
+                emit("insert", mode, [bad, 99])
+            for bad in BAD_INTS:
+                emit("remove", mode, [bad])
+        emit("insert", mode, [1, 99, 5])                 # four arguments
+        emit("insert", mode, [1, 99, NIL])
+        emit("insert", mode, [99, NIL, NIL, 7])
+        emit("remove", mode, [NIL])
+        emit("remove", mode, [NIL, b"surplus"])
+        emit("remove", mode, [2, b"surplus", TBL])
+        base = [1, 2, 2]
+        for k in range(3):
+            for sp in int_spellings(base[k], rng):
+                emit("move", mode, base[:k] + [sp] + base[k + 1:])
+            for bad in BAD_INTS + [NIL]:
+                emit("move", mode, base[:k] + [bad] + base[k + 1:])
+        emit("move", mode, base, a2=NIL)                # a2 = nil: the same table
+        emit("move", mode, base, t2={5: 1}, a2="@2")
+        emit("move", mode, base + [NIL, 7])
+        emit("move", mode, [1, 2])                       # too few
+        for i, j in ((None, None), (2, None), (None, 2), (2, 3), (-1, 1)):
+            raws = [[x if x is not None else NIL for x in (i, j)]]
+            if i is not None:
+                raws += [[sp, j if j is not None else NIL] for sp in int_spellings(i, rng)]
+                raws += [[bad, j if j is not None else NIL] for bad in BAD_INTS]
+            if j is not None:
+                raws += [[i if i is not None else NIL, sp] for sp in int_spellings(j, rng)]
+                raws += [[i if i is not None else NIL, bad] for bad in BAD_INTS]
+            for r in raws:
+                emit("unpack", mode, r)
+                emit("concat", mode, [b","] + r)
+            emit("unpack", mode, raws[0] + [b"surplus"])
+            emit("concat", mode, [NIL] + raws[0])
+            emit("concat", mode, [NIL] + raws[0] + [TBL])
+            emit("concat", mode, [7] + raws[0])          # a number as separator
+            emit("concat", mode, [F(1.5)] + raws[0])
+            for bad in BAD_STRS:
+                emit("concat", mode, [bad] + raws[0])
+    return out
 
 
 def parse_tab_case(line):
@@ -648,12 +999,28 @@ def parse_tab_case(line):
             c["cmp"] = v
         i += 1
     c["args"] = [val(a) for a in f[i + 1:]]
+    if c["op"] in SIGS:
+        # arguments as spelled -> what the manual converts them to (explicit nil = NIL)
+        rest = [NIL if a is None else a for a in c["args"][1:]]
+        a2 = None
+        if c["op"] == "move" and len(rest) >= 4:
+            a2 = rest[3]
+            rest = rest[:3] + rest[4:]
+        norm = coerce_args(c["op"], [x for x in rest])
+        c["raw"] = c["args"][:1] + [NIL if a is None else a for a in c["args"][1:]]
+        if norm is None or (a2 is not None and a2 is not NIL and a2 not in ("@1", "@2")):
+            c["argerr"] = True
+            c["args"] = ["@1"]
+        else:
+            while norm and norm[-1] is None:
+                norm.pop()
+            c["args"] = ["@1"] + norm + ([a2] if a2 in ("@1", "@2") else [])
     return c
 
 
 def check_tables(ck, gvh, oracle, tier, corpus, tag="t"):
     ccases = [parse_tab_case(l) for l in corpus]
-    cases = [c for c in ccases if c["op"] != "sort"] + gen_table_cases(tier, ck.rng, ck)
+    cases = [c for c in ccases if c["op"] != "sort"] + gen_table_cases(tier, ck.rng, ck) + typed_table_cases(ck.rng, ck)
     sorts = [c for c in ccases if c["op"] == "sort"] + gen_sort_cases(tier, ck.rng)
     allc = cases + sorts
     lines = [tab_go_line("%s%d" % (tag, i), c) for i, c in enumerate(allc)]
@@ -663,9 +1030,12 @@ def check_tables(ck, gvh, oracle, tier, corpus, tag="t"):
     for i, c in enumerate(allc):
         cid = "%s%d" % (tag, i)
         parsed[cid] = parse_tab_go(go.get(cid, ""))
-    olines = [tab_oracle_line("%s%d" % (tag, i), c, parsed["%s%d" % (tag, i)]) for i, c in enumerate(cases)]
+    olines = [tab_oracle_line("%s%d" % (tag, i), c, parsed["%s%d" % (tag, i)]) for i, c in enumerate(cases) if not c.get("argerr")]
     rc, mod, err = run_oracle(oracle, olines)
-    if rc != 0 or len(mod) != len(olines):
+    for i, c in enumerate(cases):
+        if c.get("argerr"):
+            mod["%s%d" % (tag, i)] = {"IM": "err:arg/-/-/-", "S": "err:arg/-/-"}
+    if rc != 0 or len(mod) != len(cases):
         ck.violation("oracle crashed on table cases (%d/%d lines)" % (len(mod), len(olines)),
                      {"kind": "oracle-crash", "stderr": err[-2000:]}, no_input=True)
     nviol = 0
@@ -693,6 +1063,11 @@ def check_tables(ck, gvh, oracle, tier, corpus, tag="t"):
         neglen = isinstance(Lc, int) and Lc < 0 and op in ("insert", "remove")    # the manual says nothing about a negative #t
         s_applicable = not (sf[0] == "big") and not (gc[0] == "err:injected") and not neglen
         s_ok = True
+        unpack_limit = False
+        if c.get("argerr"):
+            # the manual demands an error for these argument types; nothing may change
+            sf = ["err:arg", contents_str(c["t1"]), contents_str(c.get("t2") or {})]
+            imf = sf + [gc[3]]
         if s_applicable:
             if sf[0].startswith("err:"):
                 s_ok = gc[0].startswith("err:") and gc[1] == sf[1] and gc[2] == sf[2]
@@ -702,15 +1077,16 @@ def check_tables(ck, gvh, oracle, tier, corpus, tag="t"):
                 a = tab_args_plain(c)
                 ii = a[0] if len(a) > 0 and a[0] is not None else 1
                 jj = a[1] if len(a) > 1 and a[1] is not None else tab_len(c, g)
-                if jj - ii >= 256:
-                    s_ok = True          # implementation limit on the number of results
-                    ck.count("tab:unpack:result-limit")
+                if jj - ii >= 256 and tuple(imf[:3]) == tuple(gc[:3]):
+                    unpack_limit = True  # implementation limit on the number of results: recorded finding
         else:
             ck.count("tab:S-not-applicable:" + ("big-range" if sf[0] == "big" else "negative-length" if neglen else "injected-error"))
         # --- Go vs IM (log only where there is one)
         im_ok = (gc[0], gc[1], gc[2]) == (imf[0], imf[1], imf[2]) and (c["mode"] == "plain" or gc[3] == imf[3])
+        if c.get("argerr"):
+            im_ok = gc[0].startswith("err:") and (gc[1], gc[2]) == (imf[1], imf[2])
         if not s_ok:
-            k = tab_known(c, g, gc[:3], tuple(imf[:3]), sf)
+            k = "C19-unpack-result-limit-256" if unpack_limit else tab_known(c, g, gc[:3], tuple(imf[:3]), sf)
             kf = ck.known_match(lambda e: e["id"] == k) if k else None
             if kf is not None:
                 ck.known_finding(kf)
@@ -719,7 +1095,13 @@ def check_tables(ck, gvh, oracle, tier, corpus, tag="t"):
                 nviol += 1
                 fails.setdefault(op, []).append((len(lines[i]), i, gc, imf, sf))
         elif not im_ok:
-            imdiff.append({"case": lines[i].split(" ", 1)[1], "impl": list(gc), "model_IM": imf, "spec_S": sf})
+            k = tab_known(c, g, gc[:3], tuple(imf[:3]), sf)
+            kf = ck.known_match(lambda e: e["id"] == k) if k else None
+            if kf is not None:          # Go raises for a recorded reason where the manual's call raises for another
+                ck.known_finding(kf)
+                ck.count("known:" + k)
+            else:
+                imdiff.append({"case": lines[i].split(" ", 1)[1], "impl": list(gc), "model_IM": imf, "spec_S": sf})
     for op, lst in fails.items():
         lst.sort()
         for _, i, gc, imf, sf in lst[:2]:
@@ -811,16 +1193,21 @@ def run_oracle(oracle, lines):
 
 def check_strings(ck, gvh, oracle, cases, tag="s"):
     """Returns (n Go!=S violations, n Go!=IM differences, first Go!=IM examples)."""
-    lines = [case_line("%s%d" % (tag, i), fn, list(a)) for i, (fn, a) in enumerate(cases)]
+    cases = [scase(c) for c in cases]
+    # Go gets the arguments as spelled (raw); the models get what the manual converts them to
+    lines = [case_line("%s%d" % (tag, i), fn, list(raw if raw is not None else a)) for i, (fn, a, raw, bad) in enumerate(cases)]
+    olines = [(case_line("%s%d" % (tag, i), fn, list(a)) if not bad else None) for i, (fn, a, raw, bad) in enumerate(cases)]
     go = run_go(gvh, lines)
-    rc, mod, err = run_oracle(oracle, lines)
-    if rc != 0 or len(mod) != len(lines):
+    rc, mod, err = run_oracle(oracle, [l for l in olines if l is not None])
+    if rc != 0 or len(mod) != sum(1 for l in olines if l is not None):
         ck.violation("oracle crashed (%d/%d lines)" % (len(mod), len(lines)), {"kind": "oracle-crash", "stderr": err[-2000:]}, no_input=True)
     nviol = 0
     imdiff = []
     reported = {}
-    for i, (fn, a) in enumerate(cases):
+    for i, (fn, a, raw, bad) in enumerate(cases):
         cid = "%s%d" % (tag, i)
+        if bad:
+            mod[cid] = {"IM": "err:arg", "S": "err:arg"}     # the manual demands an error for these argument types
         if go.get(cid) == "NOTRUN":
             ck.count("not-run-after-hangs")
             continue
@@ -841,7 +1228,7 @@ def check_strings(ck, gvh, oracle, cases, tag="s"):
                               "theorems": THEOREMS_STR})
             continue
         if not same_S(g, s):
-            k = known_string_finding(fn, a, g, im, s)
+            k = known_string_finding(fn, a, g, im, s, raw)
             kf = ck.known_match(lambda e: e["id"] == k) if k else None
             if kf is not None:
                 ck.known_finding(kf)
@@ -850,7 +1237,7 @@ def check_strings(ck, gvh, oracle, cases, tag="s"):
                 nviol += 1
                 reported.setdefault(fn, [])
                 reported[fn].append((len(lines[i]), i, g, im, s))
-        elif g != im and not (im.startswith("err:") and g.startswith("err:") and fn == "char" and False):
+        elif g != im and not (bad and g.startswith("err:")):
             imdiff.append((i, g, im, s))
     for fn, lst in reported.items():
         if not isinstance(lst, list):
@@ -888,18 +1275,27 @@ def run(tier, seed):
     tcorp = [l for l in corpus if l.startswith("T")]
 
     def parse_case(l):
+        """corpus line '<fn> <arg>..' with args i<hex> s<hex> n f<bits> b0 b1 t, as spelled: typed like the generated cases"""
+        import struct
         f = l.split()
-        args = []
+        raw = []
         for a in f[1:]:
             if a == "n":
-                args.append(None)
+                raw.append(NIL)
+            elif a == "t":
+                raw.append(TBL)
+            elif a in ("b0", "b1"):
+                raw.append(a == "b1")
+            elif a[0] == "f":
+                raw.append(F(struct.unpack(">d", bytes.fromhex(a[1:]))[0]))
             elif a[0] == "i":
-                args.append(int(a[1:], 16))
+                raw.append(int(a[1:], 16))
             else:
-                args.append(bytes.fromhex(a[1:]) if a != "s-" else b"")
-        return (f[0], tuple(args))
+                raw.append(bytes.fromhex(a[1:]) if a != "s-" else b"")
+        norm = coerce_args(f[0], raw)
+        return (f[0], tuple(norm) if norm is not None else None, tuple(raw), norm is None)
 
-    cases = [parse_case(l) for l in scorp] + gen_string_cases(tier, ck.rng, ck)
+    cases = [parse_case(l) for l in scorp] + gen_string_cases(tier, ck.rng, ck) + typed_string_cases(ck.rng, ck)
     ck.log("string cases: %d (corpus %d)" % (len(cases), len(scorp)))
     nviol, imdiff, lines = check_strings(ck, gvh, oracle, cases)
     ck.log("string functions: %d Go!=S, %d Go!=IM" % (nviol, len(imdiff)))
